@@ -465,3 +465,95 @@ Definition diamond : tree :=
   [mkNode 1 1 [] TInit; mkNode 2 2 [1%Z] TInit; mkNode 3 3 [1%Z] TInit; mkNode 4 4 [2%Z; 3%Z] TInit].
 Example diamond_accepted : build_root diamond = None.
 Proof. vm_compute. reflexivity. Qed.
+
+(* ------------------------------------------------------------------ users of the walk (C01 part A, C03, C13) *)
+(** every id returned by GetExecutableTaskIds has all its parents success/skipped in the tree *)
+Theorem executable_ids_parents_done t l v p :
+  executable_ids t = Some l -> In v l -> In p (parents t v) -> gnode_ok t p = true.
+Proof.
+  unfold executable_ids. destruct (walk t (fun _ => false) (walk_fuel t)) as [[seq st]|]; [|discriminate].
+  intros H Hv Hp. injection H as <-. apply filter_In in Hv as [_ He].
+  unfold executable in He. apply andb_true_iff in He as [_ He].
+  rewrite forallb_forall in He. apply He, Hp.
+Qed.
+
+Theorem executable_ids_status t l v :
+  executable_ids t = Some l -> In v l -> executable_st (status_of t v) = true.
+Proof.
+  unfold executable_ids. destruct (walk t (fun _ => false) (walk_fuel t)) as [[seq st]|]; [|discriminate].
+  intros H Hv. injection H as <-. apply filter_In in Hv as [_ He].
+  unfold executable in He. apply andb_true_iff in He as [He _]. exact He.
+Qed.
+
+(** the children GetNextTaskIds returns for a task that ended success/skipped/... (anything but a
+    retry that went back to init) have all their parents success/skipped in the updated tree *)
+Theorem next_ids_children_done t g s t' ids v p :
+  next_ids t g s = Some (t', ids, true) -> s <> TInit ->
+  In v ids -> In p (parents t' v) -> gnode_ok t' p = true.
+Proof.
+  unfold next_ids. destruct (walk t (Z.eqb g) (walk_fuel t)) as [[seq found]|]; [|discriminate].
+  destruct found; simpl; [|discriminate].
+  intros H Hs Hv Hp.
+  destruct s; try congruence; simpl in H; injection H as <- <-; try (destruct Hv; fail);
+    apply filter_In in Hv as [_ He]; unfold executable in He; apply andb_true_iff in He as [_ He];
+    rewrite forallb_forall in He; apply He, Hp.
+Qed.
+
+(** nothing is returned for a task that did not finish (failed, canceled, blocked, ...) *)
+Theorem next_ids_unfinished_none t g s t' ids :
+  next_ids t g s = Some (t', ids, true) -> s <> TInit -> can_exec_child_st s = false -> ids = [].
+Proof.
+  unfold next_ids. destruct (walk t (Z.eqb g) (walk_fuel t)) as [[seq found]|]; [|discriminate].
+  destruct found; simpl; [|discriminate].
+  intros H Hs Hc. destruct s; try congruence; simpl in Hc; try discriminate; simpl in H; injection H as <- <-; reflexivity.
+Qed.
+
+(** ComputeStatus: failed / blocked / running always comes with a witness node in that state *)
+Lemma last_verdict_witness t seq : forall acc r v,
+  last_verdict t seq acc = (r, v) ->
+  acc = (r, v) \/
+  (In v seq /\ match r with
+               | TrFailed => status_of t v = TFailed \/ status_of t v = TCanceled
+               | TrBlocked => status_of t v = TBlocked
+               | TrRunning => is_active_st (status_of t v) = true
+               | TrSuccess => False
+               end).
+Proof.
+  induction seq as [|x seq IH]; intros acc r v H; simpl in H; [left; exact H|].
+  destruct (status_of t x) eqn:E;
+    try (injection H as <- <-; right; split; [left; reflexivity|rewrite E; reflexivity]);
+    try (apply IH in H as [H|[H1 H2]]; [left; exact H|right; split; [right; exact H1|exact H2]]);
+    try (apply IH in H as [H|[H1 H2]];
+         [injection H as <- <-; right; split; [left; reflexivity|rewrite E; auto]
+         |right; split; [right; exact H1|exact H2]]).
+Qed.
+
+Theorem compute_status_failed_witness t v :
+  compute_status t = Some (TrFailed, v) -> status_of t v = TFailed \/ status_of t v = TCanceled.
+Proof.
+  unfold compute_status. destruct (walk t _ (walk_fuel t)) as [[seq st]|]; [|discriminate].
+  intros H; injection H as H. apply last_verdict_witness in H as [H|[_ H]]; [discriminate|exact H].
+Qed.
+
+Theorem compute_status_blocked_witness t v :
+  compute_status t = Some (TrBlocked, v) -> status_of t v = TBlocked.
+Proof.
+  unfold compute_status. destruct (walk t _ (walk_fuel t)) as [[seq st]|]; [|discriminate].
+  intros H; injection H as H. apply last_verdict_witness in H as [H|[_ H]]; [discriminate|exact H].
+Qed.
+
+Theorem compute_status_running_witness t v :
+  compute_status t = Some (TrRunning, v) -> is_active_st (status_of t v) = true.
+Proof.
+  unfold compute_status. destruct (walk t _ (walk_fuel t)) as [[seq st]|]; [|discriminate].
+  intros H; injection H as H. apply last_verdict_witness in H as [H|[_ H]]; [discriminate|exact H].
+Qed.
+
+(** a skipped task enables its dependents exactly like a successful one (C13) *)
+Theorem skipped_like_success t u :
+  status_of t u = TSkipped \/ status_of t u = TSuccess -> gnode_ok t (Some u) = true.
+Proof. intros [H|H]; simpl; rewrite H; reflexivity. Qed.
+
+Theorem blocked_enables_nothing t u :
+  status_of t u = TBlocked -> gnode_ok t (Some u) = false.
+Proof. intros H; simpl; rewrite H; reflexivity. Qed.
